@@ -882,12 +882,19 @@ pub fn exec_pp(t: &[&str]) -> String {
     let data = if t.len() > 3 { unhex(t[3]) } else { vec![] };
     let ro = parse_opts(t[1]);
     let po = print_opts(&(if t[0] == "ppe" { pofe(t[1]) } else { pof(t[1]) }));
-    let v = match lexpr::from_slice_custom(&data, ro) {
+    // the property is about every source: texts that are valid UTF-8 are read as &str every second time
+    // (the sources agree on valid UTF-8: C06_str_slice), the others as a byte slice
+    let via_str = data.len() % 2 == 1;
+    let read = |bytes: &[u8]| match std::str::from_utf8(bytes) {
+        Ok(s) if via_str => lexpr::from_str_custom(s, ro),
+        _ => lexpr::from_slice_custom(bytes, ro),
+    };
+    let v = match read(&data) {
         Ok(v) => v,
         Err(e) => return format!("rej {}", err_code(&e)),
     };
     let t1 = lexpr::to_vec_custom(&v, po).unwrap();
-    let r2 = lexpr::from_slice_custom(&t1, ro);
+    let r2 = read(&t1);
     let t2 = match &r2 {
         Ok(v2) => hex(&lexpr::to_vec_custom(v2, po).unwrap()),
         Err(_) => "-".into(),
